@@ -29,6 +29,7 @@ class LoopbackServer(poll_pb2_grpc.PollConfigServicer, tracepoint_pb2_grpc.Snaps
         self.fail_send = None  # None | grpc.StatusCode | callable(request)->StatusCode|None
         self.send_gate = None  # optional threading.Event the send handler waits on
         self.poll_delay = 0    # seconds every poll answer is delayed
+        self.send_delay = 0    # seconds every successful send is held before it is recorded and answered
         self.polls_in_flight = 0
         self._server = grpc.server(futures.ThreadPoolExecutor(max_workers=8))
         poll_pb2_grpc.add_PollConfigServicer_to_server(self, self._server)
@@ -77,6 +78,8 @@ class LoopbackServer(poll_pb2_grpc.PollConfigServicer, tracepoint_pb2_grpc.Snaps
             gate.wait(20)
         fail = self.fail_send
         code = fail(request) if callable(fail) else fail
+        if code is None and self.send_delay:
+            time.sleep(self.send_delay)
         with self.lock:
             self.snapshots.append((request, md, time.monotonic(), code))
             self.lock.notify_all()
